@@ -2,6 +2,8 @@
   C02 — exact coverage. Property theorems only.
 -/
 import DisjointImpls.Lemmas.Refine
+import DisjointImpls.Lemmas.EndToEnd
+import DisjointImpls.Props.C11
 namespace DI
 
 /-- For a well-formed member (decidable `memberOK`, established by the grouping search — C11 — and re-validated
@@ -178,5 +180,207 @@ theorem C02_const_header_selected :
     injection h with h _
     rw [instEp_notEx (hσ "_ŠČ1")] at h
     cases h
+
+/-! ## End to end for un-nested invocations: from the grouping the model computes to the refinement
+
+  `familyOfGroup sp e` (Lemmas/EndToEnd.lean) abstracts a group `e = (header, keys with rows, members)` of the model's
+  grouping into a `Family`, the way `Bounds.mkFamily` / `mkMember` do from the wire representation
+  (`memberOfGroup_eq_mkMember`); `sp` are the `Sized` parameters of the main impl (they play no role in `memberOK` /
+  `thetaCoversB`). Side conditions, all executable, per group:
+  * `noNesting items` (Props/C11): no header generalises another one, so every member joins through the self-match;
+  * `flatGroupOK e`: `selfClean` — the header matches itself with identity bindings and no lenient arm; every dispatch
+    key has a `wfPath` trait path; every trait bound of a member with the same dispatch key as a key of the family is
+    `wfPath`, has the same leading `::` as the family's key (`normTr` keeps it, `TraitBound::eq` ignores it) and is not a
+    relaxed `?Trait` bound (relaxed bounds are folded into the rows by the code but are no clauses of the block);
+  * `hdrCoversB F` (for `thetaCoversB` only): the header is `wf` for the matcher (C09), all parameter occurrences of the
+    header and the keys are visible to the matcher in the header, no expression parameter in a type-argument position. -/
+
+/-- the hypothesis `memberOK` of the refinement theorems holds for every member of every family the model computes for
+    an un-nested invocation -/
+theorem C02_end_to_end_flat_memberOK (items : List T) (groups : Groups) (h : parseGroups items = .ok groups)
+    (hn : noNesting items = true) (sp : List String) :
+    ∀ e ∈ groups, flatGroupOK e = true →
+      ∀ m ∈ (familyOfGroup sp e).members, memberOK (familyOfGroup sp e) m = true :=
+  fun _ he hok => flat_memberOK h (noNesting_spec items hn) sp he hok
+
+/-- … and so does `thetaCoversB` (the executable form of `ThetaCovers`) -/
+theorem C02_end_to_end_flat_hypotheses (items : List T) (groups : Groups) (h : parseGroups items = .ok groups)
+    (hn : noNesting items = true) (sp : List String) :
+    ∀ e ∈ groups, flatGroupOK e = true → hdrCoversB (familyOfGroup sp e) = true →
+      ∀ m ∈ (familyOfGroup sp e).members,
+        memberOK (familyOfGroup sp e) m = true ∧ thetaCoversB (familyOfGroup sp e) m = true :=
+  fun _ he hok hcov m hm => ⟨flat_memberOK h (noNesting_spec items hn) sp he hok m hm,
+    flat_thetaCovers h (noNesting_spec items hn) sp he hcov m hm⟩
+
+/-- EXACT COVERAGE, END TO END, for un-nested invocations: for every input of the model that is accepted, has no
+    nested headers and passes the executable checks (no distinctness of the blocks is needed: textually identical
+    blocks, finding D12, denote the same block), for every world in
+    which dispatch traits define their associated types (`WorldTotal`) and the `Sized` requirements are compatible
+    (`SizedCompat`; fails for finding D7), and for every query `q`: the generated program implements the trait for `q`
+    through some family and member  iff  one of the user's blocks applies to `q`. -/
+theorem C02_end_to_end_flat_coverage (items : List T) (groups : Groups) (h : parseGroups items = .ok groups)
+    (hn : noNesting items = true) (sp : List String)
+    (hok : ∀ e ∈ groups, flatGroupOK e = true ∧ hdrCoversB (familyOfGroup sp e) = true)
+    (W : World) (hw : ∀ e ∈ groups, WorldTotal W (familyOfGroup sp e))
+    (hsz : ∀ e ∈ groups, ∀ m ∈ (familyOfGroup sp e).members, SizedCompat W (familyOfGroup sp e) m) (q : T) :
+    (∃ e ∈ groups, ∃ m ∈ (familyOfGroup sp e).members, genSel W (familyOfGroup sp e) m q) ↔
+    (∃ it ∈ items, applies W (mkBlock (canon it)) q) :=
+  flat_coverage h (noNesting_spec items hn) sp hok W hw hsz q
+
+/-- the group-level check follows from a check on the INPUT alone (`flatInputOK items`: every header matches itself
+    with identity bindings; for two blocks with the same header, a trait bound with the same dispatch key as a
+    binding-carrying trait bound of the other is not relaxed, both paths are `wfPath` and agree on the leading `::`) -/
+theorem C02_flatGroupOK_of_input (items : List T) (groups : Groups) (h : parseGroups items = .ok groups)
+    (hn : noNesting items = true) (hin : flatInputOK items = true) : ∀ e ∈ groups, flatGroupOK e = true :=
+  fun _ he => flatGroupOK_of_input h (noNesting_spec items hn) hin he
+
+/-- … so `memberOK` holds for every member of every family of an accepted un-nested invocation that passes the input
+    check -/
+theorem C02_end_to_end_flat_memberOK_input (items : List T) (groups : Groups) (h : parseGroups items = .ok groups)
+    (hn : noNesting items = true) (hin : flatInputOK items = true) (sp : List String) :
+    ∀ e ∈ groups, ∀ m ∈ (familyOfGroup sp e).members, memberOK (familyOfGroup sp e) m = true :=
+  fun e he => C02_end_to_end_flat_memberOK items groups h hn sp e he (C02_flatGroupOK_of_input items groups h hn hin e he)
+
+/-- `familyOfGroup` is the abstraction the checks use: it equals `Bounds.mkFamily` (the driver's `family` command)
+    applied to the wire encoding of the group — keys `List [Tuple [Bounded [b], TraitBound [p], Ident [a]] …]`, rows
+    `List [List [Some [p] | None …] …]`, the members' items — with the `Sized` parameters of the main impl handed over -/
+theorem C02_familyOfGroup_is_mkFamily (e : T × ABG × List Blk) (mainImpl : T) :
+    mkFamily e.1 (encKeys e.2.1.idents) (encRows e.2.1.payloads) mainImpl (e.2.2.map (·.item)) =
+      familyOfGroup (match mainImpl with
+        | .node "Some" [] [item] => mkBlock item
+        | _ => ⟨.node "?" [] [], [], []⟩).sizedParams e :=
+  familyOfGroup_eq_mkFamily e mainImpl
+
+namespace E2E
+open Ex11
+/-- `::Dispatch<Group = g>` (leading `::`) -/
+def dispatchLc (g : String) : T :=
+  .node "Path" [] [.node "IgnL" [] [leaf "Some"], .node "List" [] [.node "PathSegment" [] [.node "Ident" ["Dispatch"] [],
+    .node "PathArguments::AngleBracketed" [] [.node "Ign" [] [leaf "None"],
+      .node "List" [] [.node "GenericArgument::AssocType" [] [.node "AssocType" [] [.node "Ident" ["Group"] [], leaf "None", tyPath [seg g]]]]]]]]
+/-- `impl<T: ::Dispatch<Group = GroupA>> Kita for T {}`  +  `impl<T: Dispatch<Group = GroupB>> Kita for T {}` -/
+def itemsLc : List T := [implOf [tyParam "T" [traitBound (dispatchLc "GroupA")]] (tyPath [seg "T"]), blockFor "GroupB"]
+/-- `n<a = g>` -/
+def bind1 (n a g : String) : T :=
+  path [.node "PathSegment" [] [.node "Ident" [n] [], .node "PathArguments::AngleBracketed" [] [.node "Ign" [] [leaf "None"],
+    .node "List" [] [.node "GenericArgument::AssocType" [] [.node "AssocType" [] [.node "Ident" [a] [], leaf "None", tyPath [seg g]]]]]]]
+def maybeBound (p : T) : T :=
+  .node "TypeParamBound::Trait" [] [.node "TraitBound" [] [leaf "None", leaf "TraitBoundModifier::Maybe", leaf "None", p]]
+/-- `impl<T: D1<G = A> + D2<H = X>> Kita for T {}`  +  `impl<T: D1<G = B> + ?D2> Kita for T {}` -/
+def itemsMaybe : List T :=
+  [implOf [tyParam "T" [traitBound (bind1 "D1" "G" "A"), traitBound (bind1 "D2" "H" "X")]] (tyPath [seg "T"]),
+   implOf [tyParam "T" [traitBound (bind1 "D1" "G" "B"), maybeBound (path [seg "D2"])]] (tyPath [seg "T"])]
+end E2E
+
+section E2ECounter
+open E2E
+set_option maxRecDepth 1000000
+
+/-- the side condition `flatGroupOK` cannot be dropped, witness 1 (leading `::`): `TraitBound::eq` ignores the leading
+    `::` of a trait path, so `T: ::Dispatch<Group = GroupA>` and `T: Dispatch<Group = GroupB>` share one dispatch key,
+    stored with the path of the LAST member (`Dispatch`); the first member has no clause `T: Dispatch` (its clause is
+    `T: ::Dispatch`, which may be a different trait), so `memberOK` fails for it. The input is accepted and un-nested. -/
+theorem C02_end_to_end_flat_memberOK_counterexample_leading_colon :
+    ∃ gs, parseGroups itemsLc = .ok gs ∧
+      (noNesting itemsLc &&
+       gs.map (fun e => (flatGroupOK e, (familyOfGroup ["_ŠČ0"] e).members.map (fun m => memberOK (familyOfGroup ["_ŠČ0"] e) m)))
+         == [(false, [false, true])]) = true :=
+  ParseResult.ok_of_check (f := fun gs => noNesting itemsLc &&
+    gs.map (fun e => (flatGroupOK e, (familyOfGroup ["_ŠČ0"] e).members.map (fun m => memberOK (familyOfGroup ["_ŠČ0"] e) m)))
+      == [(false, [false, true])]) (by with_unfolding_all decide)
+
+/-- witness 2 (relaxed bound): the code folds a `?Trait` bound into the rows like any other bound, so the second
+    member gets a (wildcard) row under the key `T: D2` although `T: ?D2` is no clause of the block: `memberOK` fails
+    for it. (Not valid Rust for a trait other than `Sized`; the model, like `syn`, accepts it.) -/
+theorem C02_end_to_end_flat_memberOK_counterexample_maybe :
+    ∃ gs, parseGroups itemsMaybe = .ok gs ∧
+      (noNesting itemsMaybe &&
+       gs.map (fun e => (flatGroupOK e, (familyOfGroup ["_ŠČ0"] e).members.map (fun m => memberOK (familyOfGroup ["_ŠČ0"] e) m)))
+         == [(false, [true, false])]) = true :=
+  ParseResult.ok_of_check (f := fun gs => noNesting itemsMaybe &&
+    gs.map (fun e => (flatGroupOK e, (familyOfGroup ["_ŠČ0"] e).members.map (fun m => memberOK (familyOfGroup ["_ŠČ0"] e) m)))
+      == [(false, [true, false])]) (by with_unfolding_all decide)
+
+/-- hence the statement without `flatGroupOK` is false -/
+theorem C02_end_to_end_flat_memberOK_unconditional_false :
+    ¬ ∀ (items : List T) (groups : Groups), parseGroups items = .ok groups → noNesting items = true →
+        ∀ e ∈ groups, ∀ m ∈ (familyOfGroup ["_ŠČ0"] e).members, memberOK (familyOfGroup ["_ŠČ0"] e) m = true := by
+  intro hall
+  obtain ⟨gs, hgs, hchk⟩ := C02_end_to_end_flat_memberOK_counterexample_leading_colon
+  simp only [Bool.and_eq_true, beq_iff_eq] at hchk
+  obtain ⟨hn, hmap⟩ := hchk
+  have hall' := hall itemsLc gs hgs hn
+  cases gs with
+  | nil => simp at hmap
+  | cons e rest =>
+    simp only [List.map_cons, List.cons.injEq, Prod.mk.injEq] at hmap
+    have h1 := hmap.1.2
+    cases hmem : (familyOfGroup ["_ŠČ0"] e).members with
+    | nil => rw [hmem] at h1; simp at h1
+    | cons m ms =>
+      rw [hmem] at h1
+      simp only [List.map_cons, List.cons.injEq] at h1
+      have := hall' e (by simp) m (by rw [hmem]; simp)
+      rw [this] at h1
+      exact absurd h1.1 (by simp)
+end E2ECounter
+
+namespace E2E
+open Ex11
+/-- the normalised trait path `Dispatch` -/
+def dispTr : T := path [seg "Dispatch"]
+def u32T : T := tyPath [seg "u32"]
+def i64T : T := tyPath [seg "i64"]
+/-- `u32: Dispatch<Group = GroupA>`, `i64: Dispatch<Group = GroupB>`, nothing else; every type is `Sized` -/
+def W : World :=
+  ⟨fun tr ty => if tr = dispTr ∧ ty = u32T then some [("Group", tyPath [seg "GroupA"])]
+    else if tr = dispTr ∧ ty = i64T then some [("Group", tyPath [seg "GroupB"])] else none, fun _ => true⟩
+def items : List T := [blockFor "GroupA", blockFor "GroupB"]
+/-- the query `Kita for ty` -/
+def query (ty : T) : T := .node "ImplGroupId" [] [.node "Some" [] [path [seg "Kita"]], ty]
+end E2E
+
+section E2EExample
+open E2E
+set_option maxRecDepth 1000000
+
+/-- non-vacuity, on the README pair `impl<T: Dispatch<Group = GroupA>> Kita for T` / `… GroupB …` and the world `E2E.W`:
+    the input is accepted, un-nested and passes the input check `flatInputOK`; its one family passes `flatGroupOK` and
+    `hdrCoversB`;
+    the world is total for its key and `Sized`-compatible. Hence the end-to-end theorem applies: for EVERY query the
+    generated program selects some member iff some block applies; it does select one for `Kita for u32` and for
+    `Kita for i64`. -/
+theorem C02_end_to_end_readme :
+    ∃ gs, parseGroups items = .ok gs ∧ noNesting items = true ∧ flatInputOK items = true ∧
+      (∀ e ∈ gs, flatGroupOK e = true ∧ hdrCoversB (familyOfGroup ["_ŠČ0"] e) = true) ∧
+      (∀ q, (∃ e ∈ gs, ∃ m ∈ (familyOfGroup ["_ŠČ0"] e).members, genSel W (familyOfGroup ["_ŠČ0"] e) m q) ↔
+            (∃ it ∈ items, applies W (mkBlock (canon it)) q)) ∧
+      (∃ e ∈ gs, ∃ m ∈ (familyOfGroup ["_ŠČ0"] e).members, genSel W (familyOfGroup ["_ŠČ0"] e) m (query u32T)) ∧
+      (∃ e ∈ gs, ∃ m ∈ (familyOfGroup ["_ŠČ0"] e).members, genSel W (familyOfGroup ["_ŠČ0"] e) m (query i64T)) := by
+  obtain ⟨gs, hgs, hchk⟩ := ParseResult.ok_of_check (r := parseGroups items)
+    (f := fun gs => gs.all (fun e => flatGroupOK e && hdrCoversB (familyOfGroup ["_ŠČ0"] e) &&
+      (familyOfGroup ["_ŠČ0"] e).keys.all (fun k => k.a == "Group"))) (by with_unfolding_all decide)
+  have hn : noNesting items = true := by with_unfolding_all decide
+  simp only [List.all_eq_true, Bool.and_eq_true, beq_iff_eq] at hchk
+  have hok : ∀ e ∈ gs, flatGroupOK e = true ∧ hdrCoversB (familyOfGroup ["_ŠČ0"] e) = true :=
+    fun e he => (hchk e he).1
+  have hw : ∀ e ∈ gs, WorldTotal W (familyOfGroup ["_ŠČ0"] e) := by
+    intro e he k hk tr ty bs hd
+    rw [(hchk e he).2 k hk]
+    simp only [W] at hd
+    split at hd
+    · cases hd; exact ⟨_, rfl⟩
+    · split at hd
+      · cases hd; exact ⟨_, rfl⟩
+      · cases hd
+  have hsz : ∀ e ∈ gs, ∀ m ∈ (familyOfGroup ["_ŠČ0"] e).members, SizedCompat W (familyOfGroup ["_ŠČ0"] e) m :=
+    fun _ _ _ _ _ _ _ _ _ => rfl
+  have hcov := C02_end_to_end_flat_coverage items gs hgs hn ["_ŠČ0"] hok W hw hsz
+  refine ⟨gs, hgs, hn, by with_unfolding_all decide, hok, hcov, (hcov _).2 ?_, (hcov _).2 ?_⟩
+  · exact ⟨Ex11.blockFor "GroupA", by simp [items],
+      applies_of_B (ρ := [("_ŠČ0", .ty u32T)]) (by with_unfolding_all decide)⟩
+  · exact ⟨Ex11.blockFor "GroupB", by simp [items],
+      applies_of_B (ρ := [("_ŠČ0", .ty i64T)]) (by with_unfolding_all decide)⟩
+end E2EExample
 
 end DI
